@@ -411,7 +411,7 @@ func init() {
 	p := &core.Property{
 		ID:         "C13",
 		Interleave: []string{"snssai", "nssai-decode", "snssai-element", "rejected-nssai", "tailist", "servicearea", "ladn", "ladn-indication"},
-		Rule:       "S-NSSAI: every SST with SD absent and with sampled (thorough: all 2^24 for SST strides) SDs through SnssaiToNas/RejectedSnssaiToNas, decoded by a spec decoder; RejectedNssaiToNas lists of 0..8+0..8 entries; RequestedNssaiToModels on reference encodings of 1..8 entries over the variants 1/2/4/5/8 and on malformed lengths; SnssaiToModels on elements of every variant; TaiListToNas for 1..16 TAIs over 1..3 PLMNs; PartialServiceAreaListToNas for 1..16 TACs over 1..5 areas, both restriction types; LadnToNas and LadnToModels with DNNs of 1..100 octets. Non-trivial = more than one entry, or an SD/mapped part present; distinct by the generated list.",
+		Rule:       "S-NSSAI: every SST with SD absent and with sampled (thorough: all 2^24 for SST strides) SDs through SnssaiToNas/RejectedSnssaiToNas, decoded by a spec decoder; RejectedNssaiToNas lists of 0..8+0..8 entries; RequestedNssaiToModels on reference encodings of 1..8 entries over the variants 1/2/4/5/8 and on malformed lengths; SnssaiToModels on elements of every variant; TaiListToNas for 1..16 TAIs over 1..3 PLMNs; PartialServiceAreaListToNas for 1..16 TACs over 1..5 areas, both restriction types; LadnToNas and LadnToModels with DNNs of 1..100 octets (the input buffer is overwritten after LadnToModels returned, the kept strings compared afterwards). Non-trivial = more than one entry, or an SD/mapped part present; distinct by the generated list.",
 		Assumptions: []string{
 			"spec decoders written from TS 24.501 9.11.2.8, 9.11.3.9, 9.11.3.29, 9.11.3.30, 9.11.3.46, 9.11.3.49 (number of elements is coded n−1)",
 			"the DNN inside LADN elements is opaque octets in both directions (LadnToNas writes it as given)",
